@@ -1,5 +1,7 @@
 import HC.Proofs.Rotation
 import HC.Proofs.Frame
+import HC.Proofs.Crash
+import HC.Props.C01
 /-!
 # C02 — a crash between any two storage operations recovers to before-or-after state
 
@@ -18,10 +20,26 @@ entries; a slot is `none` when `validate_leader` rejects it):
 So for every interleaving of entry appends and flushes, and every crash point between their storage
 operations, the reader recovers (header, entries) = the acknowledged state: by induction, `reachable`.
 
-Partial (`crash_atomic_partial`): the theorem is about the oplog protocol.  That replaying the
-recovered entries over partially flushed bitfield/tree/data files is idempotent is validated by the
-correspondence run (every journal prefix of every generated history is reopened on the real crate
-and on the model), not yet proved.
+**`crash_atomic`** (the property itself, on the model of the crate): take any history of API calls and
+close-and-reopen steps of a freshly created core, any further call `op` (append_batch or clear of any
+arguments within the format limits, or a read), and **any number `k` of its storage operations** — the
+stores as they are if the process dies after exactly those `k` operations (`LogSpec.crashDisk`).  Then
+`Hypercore::new` on these stores succeeds, and the recovered core satisfies the representation invariant
+`Rep` for the abstract log *before* `op` or for the abstract log *after* `op`: length, byte length, every
+`has`, every `get` (block bytes), the contiguous length (exactly the first missing index) and writability
+are those of one of the two logs, and nothing else.  The crash points inside a flush are covered: some
+bitfield pages already hold the newer state while the header still carries the older contiguous-length
+hint (`Reopen.RInv` tolerates a bitfield store that is ahead of the header, and the hint is shown to come
+out exact), some tree nodes are already in their slots, the new header is written but the stale entries
+are not yet truncated (`OplogBytes.opinv_flush_mid`).
+**`crash_then_continue`**: the recovered core stays usable — every further sequence of calls on it yields
+the observations of the abstract log it recovered to.  **`acknowledged_stays`**: once all storage
+operations of a call are done (the call is acknowledged), the recovered log is the one after the call.
+
+Not covered by these theorems: a second crash or reopen of a core that was recovered from the one crash
+point "new header written, entry region not truncated" while it still has stale bytes behind its entries
+(that no suffix of the stale region validates as a frame is a CRC argument, not a theorem), proof
+applications on a replica, `make_read_only`, and torn writes (C07).  Those are validated by the run.
 -/
 namespace HC.C02
 open HC.Rotation
@@ -78,5 +96,97 @@ theorem crash_atomic_partial (ops : List (LogOp H E)) (h0 : H) :
 example : (run [LogOp.append 1, .append 2, .flush 7, .append 3]
     (Bits.next ⟨true, false⟩, 0, [], ({ s0 := none, s1 := none, entries := [] } : Log Nat Nat).writeNext ⟨true, false⟩ 0)).2.2.2.open
     = some (⟨false, true⟩, 7, [3]) := by decide
+
+/-! ### the crate's model: every crash point of every call -/
+
+section Model
+open HC HC.LogSpec HC.LiveRefine HC.TreeStore HC.Persist HC.Crash HC.C01 HC.Oplog
+
+/-- `Rep` and the ghost invariant along a history with close-and-reopen steps -/
+theorem history_invariants_reopen (C : Crypto) (hC : HashWF C) (hS : SignWF C) (hTw : TreeWF C) (steps : List HStep) :
+    ∀ (c : Core) (d : Disk) (a : Abs) (hf : Header) (a0 : Abs) (es : List Entry), Rep C c d a →
+      Persist C c d hf a0 es a → AllOK a steps →
+      Rep C (runC' C (c, d) steps).1.1 (runC' C (c, d) steps).1.2 (runA' a steps).1
+        ∧ ∃ hf' a0' es', Persist C (runC' C (c, d) steps).1.1 (runC' C (c, d) steps).1.2 hf' a0' es' (runA' a steps).1 := by
+  induction steps with
+  | nil => intro c d a hf a0 es h hp _; exact ⟨h, hf, a0, es, hp⟩
+  | cons st rest ih =>
+    intro c d a hf a0 es h hp hok
+    cases st with
+    | call op =>
+      obtain ⟨_, h2⟩ := step_refines C hC c d a h op hok.1
+      obtain ⟨hf', a0', es', hp2⟩ := persist_step C hC hS hTw c d hf a0 a es h hp op hok.1 hok.2.1
+      exact ih _ _ _ hf' a0' es' h2 hp2 hok.2.2
+    | reopen =>
+      obtain ⟨c', hopen, hrep', hp'⟩ := reopen_persist C hC hTw c d hf a0 a es h hp
+      have := ih c' d a hf a0 es hrep' hp' hok
+      simpa only [runC', runA', stepC', Abs.step', hopen, LiveRefine.applyAll_nil] using this
+
+/-- **C02.**  Any history, any call, any crash point inside it: reopening succeeds and the recovered core
+    represents the log before the call or the log after it. -/
+theorem crash_atomic (C : Crypto) (hC : HashWF C) (hS : SignWF C) (hTw : TreeWF C) (pk sk : Bytes)
+    (hpk : pk.length = 32) (hsk : sk.length = 32) (steps : List HStep) (hok : AllOK {} steps) (op : Op)
+    (hv : Valid (runA' {} steps).1 op) (hl : Limits (runA' {} steps).1 op) (k : Nat) :
+    ∃ c j, Core.openCore C (some (pk, some sk)) {} = .ok (c, j) ∧
+      ∃ c' jo, Core.openCore C none (crashDisk C (runC' C (c, ({} : Disk).applyAll j) steps).1 op k) = .ok (c', jo)
+        ∧ (Rep C c' ((crashDisk C (runC' C (c, ({} : Disk).applyAll j) steps).1 op k).applyAll jo) (runA' {} steps).1
+          ∨ Rep C c' ((crashDisk C (runC' C (c, ({} : Disk).applyAll j) steps).1 op k).applyAll jo) ((runA' {} steps).1.step op).1) := by
+  obtain ⟨c, j, h1, h2, h3⟩ := init_both C pk sk hpk hsk
+  obtain ⟨hrep, hf, a0, es, hp⟩ := history_invariants_reopen C hC hS hTw steps c _ {} _ {} [] h2 h3 hok
+  refine ⟨c, j, h1, ?_⟩
+  rcases crash_step C hC hS hTw _ _ hf a0 _ es hrep hp op hv hl k with ⟨hf', a0', es', hd⟩ | ⟨hf', a0', es', hd⟩
+  · obtain ⟨c', jo, ho, hr⟩ := durable_open C hC hTw _ hf' a0' es' _ hd
+    exact ⟨c', jo, ho, Or.inl hr⟩
+  · obtain ⟨c', jo, ho, hr⟩ := durable_open C hC hTw _ hf' a0' es' _ hd
+    exact ⟨c', jo, ho, Or.inr hr⟩
+
+/-- the recovered core stays usable: every further sequence of calls behaves like the abstract log it
+    recovered to (the one before the interrupted call, or the one after it) -/
+theorem crash_then_continue (C : Crypto) (hC : HashWF C) (hS : SignWF C) (hTw : TreeWF C) (pk sk : Bytes)
+    (hpk : pk.length = 32) (hsk : sk.length = 32) (steps : List HStep) (hok : AllOK {} steps) (op : Op)
+    (hv : Valid (runA' {} steps).1 op) (hl : Limits (runA' {} steps).1 op) (k : Nat) (more : List Op) :
+    ∃ c j, Core.openCore C (some (pk, some sk)) {} = .ok (c, j) ∧
+      ∃ c' jo, Core.openCore C none (crashDisk C (runC' C (c, ({} : Disk).applyAll j) steps).1 op k) = .ok (c', jo)
+        ∧ ((AllValid (runA' {} steps).1 more →
+              (runC C (c', (crashDisk C (runC' C (c, ({} : Disk).applyAll j) steps).1 op k).applyAll jo) more).2 = (runA (runA' {} steps).1 more).2)
+          ∨ (AllValid ((runA' {} steps).1.step op).1 more →
+              (runC C (c', (crashDisk C (runC' C (c, ({} : Disk).applyAll j) steps).1 op k).applyAll jo) more).2
+                = (runA ((runA' {} steps).1.step op).1 more).2)) := by
+  obtain ⟨c, j, h1, c', jo, h2, h3⟩ := crash_atomic C hC hS hTw pk sk hpk hsk steps hok op hv hl k
+  refine ⟨c, j, h1, c', jo, h2, ?_⟩
+  rcases h3 with h3 | h3
+  · exact Or.inl fun hvm => (live_refinement C hC more c' _ _ h3 hvm).1
+  · exact Or.inr fun hvm => (live_refinement C hC more c' _ _ h3 hvm).1
+
+/-- once every storage operation of the call is done, the recovered log is the one after the call -/
+theorem acknowledged_stays (C : Crypto) (hC : HashWF C) (hS : SignWF C) (hTw : TreeWF C) (pk sk : Bytes)
+    (hpk : pk.length = 32) (hsk : sk.length = 32) (steps : List HStep) (hok : AllOK {} steps) (op : Op)
+    (hv : Valid (runA' {} steps).1 op) (hl : Limits (runA' {} steps).1 op) (k : Nat) :
+    ∃ c j, Core.openCore C (some (pk, some sk)) {} = .ok (c, j) ∧
+      ((journalC C (runC' C (c, ({} : Disk).applyAll j) steps).1 op).length ≤ k →
+        ∃ c', Core.openCore C none (crashDisk C (runC' C (c, ({} : Disk).applyAll j) steps).1 op k) = .ok (c', [])
+          ∧ Rep C c' (crashDisk C (runC' C (c, ({} : Disk).applyAll j) steps).1 op k) ((runA' {} steps).1.step op).1) := by
+  obtain ⟨c, j, h1, h2, h3⟩ := init_both C pk sk hpk hsk
+  obtain ⟨hrep, hf, a0, es, hp⟩ := history_invariants_reopen C hC hS hTw steps c _ {} _ {} [] h2 h3 hok
+  refine ⟨c, j, h1, fun hk => ?_⟩
+  generalize hs : (runC' C (c, ({} : Disk).applyAll j) steps).1 = s at *
+  obtain ⟨sc, sd⟩ := s
+  have hdisk : crashDisk C (sc, sd) op k = (stepC C (sc, sd) op).1.2 := by
+    unfold crashDisk
+    rw [List.take_of_length_le hk]
+    cases op <;> rfl
+  obtain ⟨_, hrep2⟩ := step_refines C hC sc sd _ hrep op hv
+  obtain ⟨hf', a0', es', hp2⟩ := persist_step C hC hS hTw sc sd hf a0 _ es hrep hp op hv hl
+  obtain ⟨c', hopen, hrep', _⟩ := reopen_persist C hC hTw _ _ hf' a0' _ es' hrep2 hp2
+  rw [hdisk]
+  exact ⟨c', hopen, hrep'⟩
+
+/-- non-vacuity: a call after a history with a reopen is within the quantifier, and its journal has crash
+    points (an append issues a data write and an oplog write before anything else) -/
+example : AllOK {} [.call (.append [[1, 2], []]), .reopen, .call (.clear 0 1)] ∧ Valid (runA' {} [.call (.append [[1, 2], []]), .reopen, .call (.clear 0 1)]).1 (.append [[3]])
+    ∧ Limits (runA' {} [.call (.append [[1, 2], []]), .reopen, .call (.clear 0 1)]).1 (.append [[3]]) := by
+  simp [AllOK, Valid, Limits, Abs.step, Abs.step', runA', totalBytes]
+
+end Model
 
 end HC.C02
